@@ -278,6 +278,24 @@ def trace_tie(ctx, targets):
     return mism
 
 
+# ---------------------------------------------------------------- T-corr-gates (validation of the gate table)
+
+def gates_tie(ctx):
+    """The Sat gate table (Smtb/Proofs/Sat.lean) against what gnark really compiles: 84 micro-circuit
+    variants compiled to R1CS over BN254 and the 47-element field; satisfiability over all prover
+    choices decided by our evaluator; compared with the executable transcription of the table
+    (Driver/GateCmd.lean, proved equivalent to satApi in Smtb/Proofs/GateTableExec.lean)."""
+    go_build(['corrgates'])
+    args = ['-seed', ctx.seed, '-n', ctx.pick(3, 150)]
+    n, mism, _ = corr(ctx, 'gate-table', 'corrgates', args, ['corr', 'gates'], timeout=7200)
+    if not mism and ctx.thorough:
+        n2, mism, _ = corr(ctx, 'gate-table-exhaustive-F47', 'corrgates', ['-exhaustive'], ['corr', 'gates'], timeout=7200)
+    ctx.oblige('T-corr-gates: gnark v0.8.0 R1CS of every API op used by the circuits = Sat gate table', not mism,
+               '' if not mism else str(mism[0][1:])[:300])
+    if mism:
+        raise TieBroken('T-corr-gates', 'the gate table no longer matches the compiled constraints: ' + str(mism[0][1:])[:500])
+
+
 # ---------------------------------------------------------------- T-corr
 
 def corr(ctx, name, go_cmd, go_args, driver_args, timeout=3600, only=None, const=None, ok_exit=(0,)):
